@@ -290,6 +290,20 @@ def sub_regex(res, pat, subjects):
             if len(m.group(1)) % 2 == 0:
                 add_violation(res, "regex:to_regex-custom:extra-escaped-character-not-escaped", {"sub": "regex", "s": pat}, "every / escaped", txt)
                 break
+        # the regular expression written into a /.../ literal of the target: '/' and the escape character are escaped
+        lit = first.escape(("/",), "\\", True, False)
+        dec, k, bare = [], 0, False
+        while k < len(lit):
+            if lit[k] == "\\" and k + 1 < len(lit) and lit[k + 1] in "/\\":
+                dec.append(lit[k + 1])
+                k += 2
+                continue
+            if lit[k] == "/":
+                bare = True
+            dec.append(lit[k])
+            k += 1
+        if bare or "".join(dec) != str(first.regexp):
+            add_violation(res, "regex:escape-for-delimited-literal:" + ("bare-delimiter" if bare else "decoded-differs"), {"sub": "regex", "s": pat}, str(first.regexp), {"literal": lit, "decoded": "".join(dec)})
         if str(ss.to_regex().regexp) != str(first.regexp) or str(SigmaString(pat).to_regex("/").regexp) != txt:
             add_violation(res, "regex:to_regex:result-depends-on-earlier-call", {"sub": "regex", "s": pat}, [str(first.regexp), str(SigmaString(pat).to_regex("/").regexp)], [str(ss.to_regex().regexp), txt])
     except Exception as e:
